@@ -3118,11 +3118,16 @@ def h_isclose(ev, args, kwargs, fr, node):
     if isinstance(a, Num) and isinstance(b, Num) and a.expr.is_number and b.expr.is_number and isinstance(rtol, Num) and isinstance(atol, Num) \
             and rtol.expr.is_number and atol.expr.is_number and a.expr.is_real and b.expr.is_real:
         return BoolV(bool(sp.Abs(a.expr - b.expr) <= atol.expr + rtol.expr * sp.Abs(b.expr)))
-    if isinstance(a, Num) and isinstance(b, Num) and not a.shape and not b.shape and isinstance(rtol, Num) and isinstance(atol, Num) \
-            and a.kind in ("number", "array") and b.kind in ("number", "array") and not (a.expr.free_symbols | b.expr.free_symbols) & UNIT_SYMS:
+    if isinstance(a, Num) and isinstance(b, Num) and isinstance(rtol, Num) and isinstance(atol, Num) \
+            and a.kind in ("number", "array") and b.kind in ("number", "array") and not (a.expr.free_symbols | b.expr.free_symbols) & UNIT_SYMS \
+            and a.tag != "data" and b.tag != "data":
         # the definition itself, as a relational term: the window is RELATIVE to |b| unless rtol is given as 0
         ev.trace.append(("isclose-window", a, b, rtol, atol, node))
-        return CondV(sp.Le(sp.Abs(a.expr - b.expr), atol.expr + rtol.expr * sp.Abs(b.expr)))
+        bexpr, shape, axes = broadcast(ev, a, b)
+        rel = sp.Le(sp.Abs(a.expr - bexpr), atol.expr + rtol.expr * sp.Abs(bexpr))
+        if shape:
+            return Num(rel, kind="bool", shape=shape, axes=axes)
+        return CondV(rel)
     return h_allclose(ev, args, kwargs, fr, node)
 
 
